@@ -17,6 +17,8 @@ def run(ctx):
                 "combined interpolant at (a sample of <= 250/600) combined-grid points and 6 off-grid points are compared with the model; "
                 "a case is one history, distinct by configuration + benefit script, non-trivial if at least one interval was split")
     drv = ctx.driver("drv_c06")
+    import dimwise_gen
+    dimwise_gen.run(ctx, drv, PROP)       # translator tie: regenerate the Lean definitions of the dimension-wise logic from the current source
     n = 110 if not thorough else 1200
     budget = 80 if not thorough else 580
     first_break = None
